@@ -1157,6 +1157,15 @@ def kind_instance(kind, rng):
                 return T
         return None
     if kind == 'cfg':
+        if rng.random() < 0.2:
+            # the file declares its own epsilon letter, and the letter 'ε' is an ORDINARY terminal: 'S -> ε' (a word of length one) and
+            # 'S -> e' (the empty word) are different rules with the same printed form inside the library
+            x = rng.choice(['a', 'b'])
+            R = [['S', 0, [['t', 'ε']]] if rng.random() < 0.5 else ['S', 0, []],
+                 ['S', 1, [['v', 'S'], ['t', 'ε']]] if rng.random() < 0.6 else ['S', 1, [['t', x], ['v', 'S']]]]
+            if rng.random() < 0.4:
+                R.append(['S', 2, [['t', x]]])
+            return {'V': ['S'], 'Sigma': sorted({n for _, _, rhs in R for k0, n in rhs if k0 == 't'} | {'ε'}), 'R': R, 'S': 'S', 'eps': 'e'}
         c = CfgLanguageWords().instance(rng)
         return None if c is None else c['G']
     return gen.random_regexp(rng, rng.randint(1, 6), rng.choice([['a', 'b'], ['a']]))
@@ -1317,6 +1326,18 @@ class LanguageFileAny:
         lines = own.split('\n')
         if len(lines) > 2:
             out.append('\n'.join(lines[:-1]))
+        if self.kind == 'cfg' and lines and lines[0].startswith('epsilon = '):
+            # exchange the alternatives that consist of the declared epsilon letter alone with those that consist of the terminal 'ε' alone
+            e = lines[0].split('=')[1].strip()
+            sw = {e: 'ε', 'ε': e}
+            new = [lines[0]]
+            for l in lines[1:]:
+                if '->' in l:
+                    lhs, rhs = l.split('->', 1)
+                    new.append(lhs + '-> ' + ' | '.join(sw.get(a.strip(), a.strip()) for a in rhs.split('|')))
+                else:
+                    new.append(l)
+            out.append('\n'.join(new))
         return out
 
     def check(self, inst, ans):
